@@ -405,7 +405,7 @@ def stages_3_4(ctx, thorough, hyp, runs, sims, sim_suites):
     # 4. code -> spec: the recorded executions of the simulated behaviours
     for (cfg, tcfg, tag, num), st in zip(sims, suites[ndirected:ndirected + len(sims)]):
         trace_stage(ctx, st["traceOut"], tcfg, len(st["behaviours"]), bool(viol_by_suite.get(tag)), tag)
-    if thorough and not viol_by_suite.get("clean"):
+    if not viol_by_suite.get("clean"):
         binding_selftest(ctx, suites[ndirected]["traceOut"], "Trace_Clean.cfg")
 
 
